@@ -89,8 +89,14 @@ def gen_setting(rng, profile='wf', focus=None):
     return rng.choice(FAMILIES[fam])
 
 
+# truthy arguments that parse to no setting at all
+EMPTYISH = [[';'], [';;;'], [['']], [{'T': ['']}], [[[]]], ['', ';'], [[], 'bold'], ['bold', ''], [';red']]
+
+
 def gen_settings(rng, profile='wf', maxn=3, focus=None):
     """a list of 1..maxn setting specs, sometimes nested / as ';' string"""
+    if rng.random() < 0.03:
+        return list(rng.choice(EMPTYISH))
     n = 1 if rng.random() < 0.6 else rng.randint(1, maxn)
     out = [gen_setting(rng, profile, focus) for _ in range(n)]
     r = rng.random()
@@ -124,6 +130,11 @@ def gen_code_list(rng, maxn=8, tail_incomplete=True, unknown=True, reset=True):
                 toks += [base, 5, rng.choice([0, 1, 9, 214, 255])]
             else:
                 toks += [base, 2, rng.choice([0, 1, 255]), rng.choice([0, 2, 128]), rng.choice([0, 3, 255])]
+        elif r < 0.29 and tail_incomplete:
+            # a lone introducer in the middle of the list (selector neither 5 nor 2): an incomplete group
+            toks.append(rng.choice([38, 48, 58]))
+            if rng.random() < 0.5:
+                toks.append(rng.choice([38, 48, 58, 1, 31, 0, 7, 3]))
         elif r < 0.33 and unknown:
             toks.append(rng.choice(UNKNOWN_CODES))
         elif r < 0.38 and reset:
@@ -338,7 +349,7 @@ DEFAULT_WEIGHTS = {
     'strip': 2, 'split': 2, 'splitlines': 0.7, 'partition': 1.5, 'replace': 2.5, 'expandtabs': 0.5,
     'removefix': 1.2, 'case': 1.2, 'assign_str': 1.2, 'simplify': 0.8, 'set_ansi_str': 0.4,
     'format_matching': 1.5, 'unformat_matching': 1, 'query': 1, 'find_settings': 1, 'settings_at': 0.6,
-    'eq': 0.3, 'contains': 0.3, 'match_apply': 0.3,
+    'eq': 0.3, 'contains': 0.3, 'match_apply': 0.3, 'flags': 0.3,
 }
 
 
@@ -703,6 +714,8 @@ class HistoryGen:
         if kind == 'settings_at':
             return {'m': rng.choice(['settings_at', 'ansi_settings_at']), 'r': ri,
                     'a': [rng.choice([-1, 0, n - 1, n, n + 1, -n, rng.randint(-2, n + 2)])]}
+        if kind == 'flags':
+            return {'m': rng.choice(['is_formatting_valid', 'is_formatting_parsable', 'is_optimizable', 'str']), 'r': ri}
         if kind == 'eq':
             return {'m': 'eq', 'r': ri, 'a': [self.pick_operand()]}
         if kind == 'contains':
